@@ -8,6 +8,10 @@ import numpy as np
 
 from graphslam.edge.edge_landmark import EdgeLandmark
 from graphslam.edge.edge_odometry import EdgeOdometry
+from graphslam.pose.r2 import PoseR2
+from graphslam.pose.r3 import PoseR3
+from graphslam.pose.se2 import PoseSE2
+from graphslam.pose.se3 import PoseSE3
 from graphslam.vertex import Vertex
 
 from . import build as B
@@ -276,8 +280,38 @@ def evaluate(cases, K, name, run, timeout=3000, spec='MC_EdgeCases', invariants=
     return [(cases[k], done[k]) for k in sorted(done)]
 
 
+class _SubR2(PoseR2):
+    """Trivial user subclasses of the pose classes: instances of a subclass are instances of the pose type and must be treated alike."""
+
+
+class _SubR3(PoseR3):
+    pass
+
+
+class _SubSE2(PoseSE2):
+    pass
+
+
+class _SubSE3(PoseSE3):
+    pass
+
+
+_SUB = {PoseR2: _SubR2, PoseR3: _SubR3, PoseSE2: _SubSE2, PoseSE3: _SubSE3}
+
+
 def build_edge(c):
-    """Real vertices + edge for a case."""
+    """Real vertices + edge for a case; about every fifth edge is handed poses that are instances of trivial subclasses of the pose classes."""
+    e, v1, v2 = _build_edge(c)
+    if (int(sum(c['t1'])) + int(sum(c['tz']))) % 5 == 0:          # (a function of the case, so that two edges built from one case agree in type)
+        v1.pose = v1.pose.view(_SUB[type(v1.pose)])
+        if c['fam'] == 'odo':
+            v2.pose, e.estimate = v2.pose.view(_SUB[type(v2.pose)]), e.estimate.view(_SUB[type(e.estimate)])
+        else:
+            e.offset = e.offset.view(_SUB[type(e.offset)])          # (the landmark edge's own validity rule wants the point to be exactly PoseR2 / PoseR3)
+    return e, v1, v2
+
+
+def _build_edge(c):
     if c['fam'] == 'odo':
         k = c['k']
         v1 = Vertex(1, B.pose(k, c['t1'], c['r1']))
